@@ -64,6 +64,46 @@ pub fn try_from_string<T: TryFrom<String> + Serialize>(arg: &Value) -> R {
     ser(&t)
 }
 
+// The same conversions, reporting the value structurally as well (its Debug form names the
+// variant that was chosen, which the serialized form of an untagged union does not)
+fn ser_dbg<T: Serialize + Debug>(t: &T) -> R {
+    let w = ser(t)?;
+    Ok(format!("{{\"ser\":{},\"dbg\":{}}}", w, Value::String(format!("{:?}", t))))
+}
+
+pub fn de_dbg<T: DeserializeOwned + Serialize + Debug>(arg: &Value) -> R {
+    let s = arg.to_string();
+    let t: T = serde_json::from_str(&s).map_err(|e| e.to_string())?;
+    ser_dbg(&t)
+}
+
+pub fn parse_dbg<T: FromStr + Serialize + Debug>(arg: &Value) -> R
+where
+    T::Err: Debug,
+{
+    let s = arg_str(arg)?;
+    let t = T::from_str(s).map_err(|e| format!("{:?}", e))?;
+    ser_dbg(&t)
+}
+
+pub fn try_from_str_dbg<T: for<'a> TryFrom<&'a str> + Serialize + Debug>(arg: &Value) -> R {
+    let s = arg_str(arg)?;
+    let t = T::try_from(s).map_err(|_| "conversion error".to_string())?;
+    ser_dbg(&t)
+}
+
+pub fn try_from_ref_string_dbg<T: for<'a> TryFrom<&'a String> + Serialize + Debug>(arg: &Value) -> R {
+    let s = arg_str(arg)?.to_string();
+    let t = T::try_from(&s).map_err(|_| "conversion error".to_string())?;
+    ser_dbg(&t)
+}
+
+pub fn try_from_string_dbg<T: TryFrom<String> + Serialize + Debug>(arg: &Value) -> R {
+    let s = arg_str(arg)?.to_string();
+    let t = T::try_from(s).map_err(|_| "conversion error".to_string())?;
+    ser_dbg(&t)
+}
+
 /// deserialize, then report Display next to the serialized form
 pub fn display<T: DeserializeOwned + Serialize + Display>(arg: &Value) -> R {
     let s = arg.to_string();
